@@ -477,10 +477,41 @@ def inst_derivation(rng, mode):
     return own, submit, muts
 
 
+def inst_exhaustive(rng, fam, seed):
+    """a small reference and EVERY answer of a small universe (instead of a few mutants)"""
+    import gambatools.dfa_algorithms as da
+    import gambatools.notebook_dfa as nd
+    S = "a" if seed % 2 else "ab"
+    k = 2 if S == "ab" else 3
+    D = U.dfa_from_code(2, S, seed % U.dfa_count(2, S), prefix="s")
+    t = da.print_dfa(D)
+    if fam == "complement/exh":
+        own = da.dfa_complement(D)
+
+        def submit(A):
+            v, cex, exc, out = run_checker(nd.check_dfa_complement, t, da.print_dfa(A))
+            return {"family": "complement", "d1": ab.dfa(D), "ans": ab.dfa(A), "length": 0, "verdict": v, "cex": cex,
+                    "exc": exc, "out": ab.enc(out), "illformed": False}
+        answers = [("code%d" % c, U.dfa_from_code(2, S, c, prefix="s")) for c in range(U.dfa_count(2, S))]
+        return own, submit, answers
+    if fam == "minimal/exh":
+        own = da.dfa_quotient(D)
+        length = 3
+
+        def submit(A):
+            v, cex, exc, out = run_checker(nd.check_dfa_minimal, t, da.print_dfa(A), length)
+            return {"family": "minimal", "d1": ab.dfa(D), "ans": ab.dfa(A), "length": length, "verdict": v, "cex": cex,
+                    "exc": exc, "out": ab.enc(out), "illformed": False}
+        answers = [("k1code%d" % c, U.dfa_from_code(1, S, c, prefix="m")) for c in range(U.dfa_count(1, S))]
+        answers += [("k2code%d" % c, U.dfa_from_code(2, S, c, prefix="m")) for c in range(U.dfa_count(2, S))]
+        return own, submit, answers
+    raise ValueError(fam)
+
+
 FAMILIES = ["union", "intersection", "symmetric_difference", "complement", "reverse", "minimal", "hopcroft", "nfa2dfa",
             "dfa2regexp", "lang_words/dfa", "lang_words/nfa", "lang_words/re", "lang_words/cfg", "lang_file",
             "accepts_rejects", "chomsky/1", "chomsky/2", "chomsky/3", "chomsky/4", "chomsky/5", "cyk",
-            "derivation/leftmost", "derivation/rightmost"]
+            "derivation/leftmost", "derivation/rightmost", "complement/exh", "minimal/exh"]
 
 
 def instance(fam, rng):
@@ -513,10 +544,16 @@ def instance(fam, rng):
     raise ValueError(fam)
 
 
+def instance_seeded(fam, rng, seed):
+    if fam.endswith("/exh"):
+        return inst_exhaustive(rng, fam, seed)
+    return instance(fam, rng)
+
+
 def events_for(fam, seed, want):
     """want: 'own' (C13) or 'all' (C12: own answer and its mutants)"""
     rng = random.Random("%s/%d" % (fam, seed))
-    inst, exc = guarded(lambda: instance(fam, rng), 60)
+    inst, exc = guarded(lambda: instance_seeded(fam, rng, seed), 60)
     src = {"kind": "chk", "fam": fam, "seed": seed}
     if exc != "none":
         yield {"op": "selfcheck", "family": fam, "verdict": "generator_raised_" + exc, "src": src}
